@@ -641,14 +641,14 @@ func c01Corpus() []c01Case {
 			SH: []c01Step{{If: c01Cond{T: "false"}, Out: c01Outcome{T: "fail", E: authz}},
 				{If: c01Cond{T: "false", Real: true}, Out: c01Outcome{T: "panic"}},
 				{If: none, Out: c01Outcome{T: "fail", E: authz}, Continue: true}},
-			FI: []c01Step{{If: c01Cond{T: "true"}, Out: ok}},
-			EH: []c01EH{{If: c01Cond{T: "false"}, K: "default"}, {If: none, K: "redirect", To: "http://idp/login"}},
+			FI:      []c01Step{{If: c01Cond{T: "true"}, Out: ok}},
+			EH:      []c01EH{{If: c01Cond{T: "false"}, K: "default"}, {If: none, K: "redirect", To: "http://idp/login"}},
 			Backend: true, SlashesOff: true}},
 		// the same with a failing finalizer: redirect 302, nothing reaches the upstream
 		{Lookup: "default", Rule: &c01Rule{
-			SC: okAuthn,
-			FI: []c01Step{{If: c01Cond{T: "true", Real: true}, Out: c01Outcome{T: "fail", E: &stacks.Node{K: "s", Kind: "int"}}}},
-			EH: []c01EH{{If: c01Cond{T: "false", Real: true}, K: "default"}, {If: none, K: "redirect", To: "http://idp/login"}},
+			SC:      okAuthn,
+			FI:      []c01Step{{If: c01Cond{T: "true", Real: true}, Out: c01Outcome{T: "fail", E: &stacks.Node{K: "s", Kind: "int"}}}},
+			EH:      []c01EH{{If: c01Cond{T: "false", Real: true}, K: "default"}, {If: none, K: "redirect", To: "http://idp/login"}},
 			Backend: true}},
 		// last authenticator fails with an argument error: fallback has nowhere to go
 		{Lookup: "matched", Rule: &c01Rule{SC: []c01Authn{{Out: c01Outcome{T: "fail", E: arg}, Fallback: true}}, Backend: true}},
